@@ -2,6 +2,7 @@ package main
 
 import (
 	"fmt"
+	"go/constant"
 	"go/token"
 	"go/types"
 	"sort"
@@ -136,6 +137,12 @@ func (vc *VC) execCall(fr *Frame, st *State, pc string, site ssa.Instruction, c 
 	if callee.Parent() != nil && callee.Blocks != nil && len(callee.FreeVars) > 0 {
 		vc.eng.noteAssumption("closure call " + callee.String() + " not modelled")
 		return vc.havocResults(st, sig.Results())
+	}
+	if callee.Pkg != nil && callee.Pkg.Pkg.Path() == "fmt" && callee.Name() == "Sprintf" {
+		if t, ok := vc.sprintf(fr, st, c); ok {
+			vc.trusted["fmt.Sprintf with %s/%d verbs only: concatenation of the literal text and the arguments"] = true
+			return Sym{T: t}
+		}
 	}
 	spec := vc.eng.specFor(callee)
 	if spec != nil && !spec.Inline {
@@ -386,8 +393,12 @@ func (vc *VC) applyContract(fr *Frame, st *State, pc string, callee *ssa.Functio
 			if as.Callee == short && as.Ordinal == ord {
 				cenv := vc.envAt(fr, st)
 				g := vc.evalBool(cenv, as.Cl.Expr)
-				vc.oblige("assert", fmt.Sprintf("%s#%d", short, ord), pc, g, site.Pos(), as.Cl.Src)
-				vc.assume(pc, g) // proved above, available below
+				if as.Assume {
+					vc.trusted[fmt.Sprintf("assumed at call %s#%d in %s: %s", short, ord, funcName(fr.fn), as.Cl.Src)] = true
+				} else {
+					vc.oblige("assert", fmt.Sprintf("%s#%d", short, ord), pc, g, site.Pos(), as.Cl.Src)
+				}
+				vc.assume(pc, g) // proved above (or explicitly assumed), available below
 			}
 		}
 	}
@@ -921,4 +932,103 @@ func withNamedResults(vars map[string]Term, rt *types.Tuple, res []Term) map[str
 		}
 	}
 	return out
+}
+
+// sprintf models fmt.Sprintf for a constant format made of literal text, %s and %d.
+func (vc *VC) sprintf(fr *Frame, st *State, c *ssa.CallCommon) (Term, bool) {
+	fc, ok := c.Args[0].(*ssa.Const)
+	if !ok || len(c.Args) != 2 {
+		return Term{}, false
+	}
+	format := constant.StringVal(fc.Value)
+	// collect the variadic arguments from the stores into the varargs array
+	var argv []ssa.Value
+	switch a := c.Args[1].(type) {
+	case *ssa.Slice:
+		alloc, ok := a.X.(*ssa.Alloc)
+		if !ok {
+			return Term{}, false
+		}
+		n := int(alloc.Type().(*types.Pointer).Elem().Underlying().(*types.Array).Len())
+		argv = make([]ssa.Value, n)
+		for _, r := range *alloc.Referrers() {
+			ia, ok := r.(*ssa.IndexAddr)
+			if !ok {
+				continue
+			}
+			ic, ok := ia.Index.(*ssa.Const)
+			if !ok {
+				return Term{}, false
+			}
+			idx := int(ic.Int64())
+			for _, rr := range *ia.Referrers() {
+				if stt, ok := rr.(*ssa.Store); ok {
+					if mi, ok := stt.Val.(*ssa.MakeInterface); ok {
+						argv[idx] = mi.X
+					}
+				}
+			}
+		}
+	case *ssa.Const:
+		// no arguments
+	default:
+		return Term{}, false
+	}
+	var parts []string
+	lit := ""
+	ai := 0
+	flush := func() {
+		if lit != "" {
+			parts = append(parts, vc.strLit(lit).S)
+			lit = ""
+		}
+	}
+	for i := 0; i < len(format); i++ {
+		if format[i] != '%' {
+			lit += string(format[i])
+			continue
+		}
+		if i+1 >= len(format) {
+			return Term{}, false
+		}
+		i++
+		switch format[i] {
+		case '%':
+			lit += "%"
+		case 's', 'd':
+			if ai >= len(argv) || argv[ai] == nil {
+				return Term{}, false
+			}
+			flush()
+			x := vc.value(fr, st, argv[ai])
+			ai++
+			switch {
+			case x.Sort == SStr:
+				parts = append(parts, x.S)
+			case x.Sort == SSlice && format[i] == 's':
+				key := vc.memKey(types.Typ[types.Uint8])
+				mem := vc.heapGet(st, key)
+				parts = append(parts, vc.define("str", SStr, fmt.Sprintf("(s_of (select %s (sl.base %s)) (sl.off %s) (sl.len %s))", mem.S, x.S, x.S, x.S)))
+			case x.Sort == SInt && format[i] == 'd':
+				vc.uses["strs"] = true
+				parts = append(parts, "(itoa "+x.S+")")
+			default:
+				return Term{}, false
+			}
+		default:
+			return Term{}, false
+		}
+	}
+	flush()
+	if ai != len(argv) {
+		return Term{}, false
+	}
+	if len(parts) == 0 {
+		return vc.strLit(""), true
+	}
+	res := parts[len(parts)-1]
+	for i := len(parts) - 2; i >= 0; i-- {
+		res = "(s_cat " + parts[i] + " " + res + ")"
+	}
+	return Term{S: vc.define("fmt", SStr, res), Sort: SStr, T: types.Typ[types.String]}, true
 }
